@@ -29,6 +29,20 @@ fn main() {
             }
         };
         writeln!(out, "{}", res).unwrap();
+        // A task that panicked while holding a guard can be abandoned in the middle of unwinding when the
+        // execution fails for another reason first; the thread's panic count then never returns to zero
+        // (see known finding F13).  Later cases must not inherit that state: ask for a fresh process.
+        if probe::stuck() {
+            writeln!(out, "RESTART").unwrap();
+            out.flush().unwrap();
+            std::process::exit(0);
+        }
+    }
+}
+
+mod probe {
+    pub fn stuck() -> bool {
+        std::thread::panicking()
     }
 }
 
